@@ -18,23 +18,43 @@ def _regen_tl_cost_table():
 SPEC = dict(
     manifest=dict(
         category='proof',
-        text='PARTIAL. Lean proves, for the step-counting model of the code as written (Model/Cost.lean), for EVERY input: the '
-             'iterative Cell.order does exactly-bounded work <= 1+n+e loop iterations on any node list with n cells and e references '
-             '(shared sub-DAGs are expanded once: visited-set potential argument), to_boc <= 5(n+e)+1+bytes steps, the BoC parser '
-             'loops <= 3*len+4 iterations (outer loops <= len+1: every loop driven by cells_num/roots_num/index counts is cut by a '
-             'length check), the dictionary parser <= 2 steps per node of the unfolded dictionary tree (bound in the size of the '
-             'output), and for the TL parser: the bytes re-parse loop and the (repaired, F16) vector loop are bounded by the remaining '
-             'input for any inner parser, and the whole model never runs out of its depth fuel. The theorems are about the model\'s '
-             'cost function; the tie to the real cost is a measured inequality lines <= A*steps+B (Python line events counted by '
-             'sys.monitoring inside pytoniq_core during one call, constants calibrated once with ~4x slack, design/C19.md) on '
-             'adversarial families (2-refs-to-same-child chains to length 1000, depth-1023 chains, diamonds, huge count fields over '
-             'short bodies, TL vectors declaring up to 2^32-1 elements, bytes re-parse towers, dictionaries with bogus labels and '
-             'maximal sharing) plus a 2 s wall-clock cap per call. C-level costs (bytes slicing cells_data[i:], hashing, bitarray) '
-             'are visible only through the line-count proxy and the wall-clock cap.',
+        text='PARTIAL (the theorems are about a cost MODEL; the tie to the real cost is measured). Lean proves, for the step-counting '
+             'model of the code as written (Model/Cost.lean), for EVERY input: (1) the iterative Cell.order does <= 1+n+e loop iterations on '
+             'any node list with n cells and e references (shared sub-DAGs are expanded once: visited-set potential argument; the bound is '
+             'attained); to_boc <= 5(n+e)+1+bytes steps. (2) Constructing/hashing: Cell.__init__ runs once per distinct cell and reads the '
+             'referenced cells\' cached masks/depths/hashes, <= 4n+9e loop iterations and <= 4*(descriptor+data bytes)+136(n+e) bytes fed to '
+             'SHA-256 for <= 4 hashes per cell (c19_build_linear; hashWork = 4(n+e) exactly). (3) The BoC parser: all loop iterations <= '
+             '3*len+5, the three outer loops <= len+1: every loop driven by cells_num/roots_num/index counts is cut by a length check. '
+             '(4) TL, c19_tl_total: for every schema table whose ids have 4 bytes and whose BARE references (fields parsed without a '
+             'constructor id) form no cycle (NoBareCycle tbl R, decidable; proved by kernel evaluation for the bundled 829-row table, '
+             'which is regenerated from the .tl files on every run: R = 4), every byte string, boxed or bare start: the deserialize model '
+             'with depth fuel (len/4+1)(R+2) never runs out of fuel and makes <= K(tbl)*(len+1)^2 steps -- a function of the input LENGTH '
+             'and a table constant only, never of a declared vector or bytes length (the vector loop is bounded through the guard of the '
+             'F16 repair, the bytes re-parse loop through j advancing). The square is real (a vector of a field-less bare type iterates '
+             'without consuming; example family 176/751/3101 steps for 48/88/168 bytes) and harmless (a few hundred bytes = ~10^4 steps). '
+             'The side condition is necessary: a table "a x:a = A" recurses for ever on the empty input (c19_tl_bare_cycle_diverges; in '
+             'Python RecursionError); not reachable with the bundled schemas. K(tbl) = 1+tlA(maxFields, R+2) is a crude worst case over '
+             'all tables of that shape. (5) DICTIONARIES ARE OUTPUT-BOUNDED, NOT INPUT-BOUNDED: a parse that returns makes exactly '
+             '4*(entries+stops)-2 calls (entries = keys in the result, stops = edges ending in a pruned/library cell) and <= (1+B) times '
+             'as many steps with the unary-label loop (B = max bits per cell) (c19_dict_output, c19_dict_total); always <= 2 calls per node '
+             'of the tree UNFOLDED from the root. The bag can be exponentially smaller than that tree: ~250 bytes whose 30 forks reference '
+             'the same child twice are a legitimate 2^30-entry dictionary, and over a pruned/exotic bottom cell the same 2^30 steps return an '
+             'EMPTY result (stops = 2^30). For load_dict the sentence "a few-hundred-byte input cannot run long" therefore does NOT hold; the '
+             'property is read as work <= c*(output entries + pruned edges) for dictionaries (not repaired: an eager dict-returning API '
+             'must materialise the unfolded tree). The tie to the real cost is a measured inequality lines <= A*steps+B (Python line events '
+             'counted by sys.monitoring inside pytoniq_core during one call, constants calibrated once with ~4x slack, design/C19.md) on '
+             'adversarial families (2-refs-to-same-child chains to length 1000, depth-1023 chains, level-3 cells, diamonds, huge count '
+             'fields over short bodies, TL vectors declaring up to 2^32-1 elements, bytes re-parse towers, dictionaries with bogus labels '
+             'and maximal sharing) plus a 2 s wall-clock cap per call; also compared: cell order, len(to_boc), number of sha256 objects and '
+             'bytes hashed while constructing a DAG (= one per hashed level per DISTINCT cell), dictionary entries returned = entries '
+             'counted by the model, side conditions of c19_tl_total on every table sent to the driver. C-level costs (bytes slicing '
+             'cells_data[i:], hashing, bitarray) are visible only through the line-count proxy and the wall-clock cap.',
         level_note='Trusted: Lean kernel (propext, Classical.choice, Quot.sound); Model/Cost.lean as a hand transcription of the loops of '
-                   'cell.py (order, to_boc), deserialize.py, hashmap/parse.py, tl/generator.py (upper-bound convention: validity failures '
-                   'that only cut work short are not modelled); the measured tie lines <= A*steps+B holds on the sampled inputs only; '
-                   'the line count is a proxy for cost (C-level work invisible); harness/workmeter.py and the Python harness.',
+                   'cell.py (order, to_boc, __init__/calculate_hashes), deserialize.py, hashmap/parse.py, tl/generator.py (upper-bound '
+                   'convention: validity failures that only cut work short are not modelled); harness/translate/tl_cost.py + TlEnv (the bundled '
+                   'schema table in the cost model\'s syntax, same object the measured TL cases use); the measured tie lines <= A*steps+B holds '
+                   'on the sampled inputs only; the line count is a proxy for cost (C-level work invisible); harness/workmeter.py and the Python '
+                   'harness.',
         technique='Lean 4 proof about a step-counting model + measured work inequality (sys.monitoring line counts) against the library',
     ),
     translators=[('bundled tl schemas->Generated/TlCostTable.lean', _regen_tl_cost_table)],
@@ -50,7 +70,9 @@ SPEC = dict(
                   'constants A,B per operation fixed in harness/props/C19.py (calibrated once, ~4x slack)'],
     assumptions=['line events are a proxy of cost: C-level work (slicing, sha256, bitarray) is not counted',
                  'the tie is a sampled inequality, not a proof about CPython',
-                 'the TL vector loop is modelled with the guard of the pending F16 repair (length > remaining bytes raises)'],
+                 'TL: the table has no cycle of bare references (NoBareCycle; proved for the bundled table, checked by the driver for every '
+                 'table of the measured cases); user-supplied cyclic tables end in RecursionError',
+                 'dictionaries: work is bounded by the unfolded tree = result entries + pruned edges, not by the size of the bag'],
 )
 
 # ----------------------------------------------------------------------------- calibrated constants  (design/C19.md)
@@ -642,6 +664,8 @@ class TlEnv:
     def gen_fields(self, rng, s, depth):
         S = self.schemas
         out = b''
+        if depth < -12:                 # a table with a bare cycle: do not follow it for ever
+            return out
         for field, t in s.args.items():
             if '?' in t:
                 t = t.split('?')[-1]
@@ -693,12 +717,56 @@ def check_tl_side(ctx, env, tag):
     a = ctx.model.run([f'costtlside {env.table}'])[0].split()
     env.side = a
     rows = env.table.count('|') + 1
+    if a[0] == 'ok' and a[2] == 'none':
+        check_bare_cycle(ctx, env, tag)
     if a[0] != 'ok' or a[1] != '1' or a[2] == 'none' or int(a[2]) > rows:
         ctx.corr_broken(f'TL table of {tag} violates the side conditions of c19_tl_total (ids4={a[1:2]}, bare depth={a[2:3]}): '
                         f'a bare-reference cycle makes deserialize recurse without consuming input')
     else:
         ctx.count(f'tl-table:{tag}:rows={rows},bareDepth={a[2]},maxFields={a[3]}')
     return a
+
+
+def check_bare_cycle(ctx, env, tag):
+    """NoBareCycle on the library itself: a schema that (transitively) contains itself as a bare field makes the bare parse
+    of the EMPTY input recurse without consuming anything (c19_tl_bare_cycle_diverges) -- a concrete failing input."""
+    rows = env.table.split('|')
+    g = []
+    for r in rows:
+        fs = r.split(':')[1]
+        g.append([int(f.split('?')[-1][1:]) for f in ([] if fs == '-' else fs.split(';'))
+                  if f.split('?')[-1][0] in 'sv' and f.split('?')[-1][1:] != 'x'])
+    state = {}
+
+    def on_cycle(v):
+        stack = [(v, iter(g[v]))]
+        state[v] = 1
+        while stack:
+            u, it = stack[-1]
+            nxt = next(it, None)
+            if nxt is None:
+                state[u] = 2
+                stack.pop()
+            elif nxt < len(g) and state.get(nxt) == 1:
+                return nxt
+            elif nxt < len(g) and nxt not in state:
+                state[nxt] = 1
+                stack.append((nxt, iter(g[nxt])))
+        return None
+    for v in range(min(len(g), len(env.lst))):
+        if v in state:
+            continue
+        c = on_cycle(v)
+        if c is not None and c < len(env.lst):
+            sch = env.lst[c]
+            m = metered('tl', 3, lambda: env.schemas.deserialize(b'', False, sch.args))
+            ctx.case(('tl-bare-cycle', sch.name), sample={'op': 'tl-bare-cycle', 'schema': sch.name, 'lines': m.lines})
+            if m.aborted or isinstance(m.exc, RecursionError) or m.lines > budget('tl', 3):
+                ctx.fail(f'tl:bare-cycle:{sch.name}', f'schema {sch.name} contains itself through bare fields: deserialize(b"", False, args) '
+                         f'recurses without consuming input ({m.lines} lines, {type(m.exc).__name__ if m.exc else m.aborted})',
+                         {'tl': '', 'mode': sch.name, 'tag': tag}, f'>= {m.lines} lines', f'<= {budget("tl", 3)} lines')
+            return True
+    return False
 
 
 def check_tl(ctx, env, items, tag, f16_fixed=True):
@@ -866,8 +934,11 @@ def run(ctx):
         check_tl(ctx, env, tl_vector_family(rng, env, ctx.n(60, 600)), 'tl-vector')
     else:
         ctx.notes.append('TL vector-length family skipped: the canonical F16 input still loops (known finding); it runs once the repair is merged')
+    if not ctx.thorough:
+        check_tl_side(ctx, TlEnv(full=True), 'tl-full-table')      # the table of c19_tl_bundled_table
     if ctx.thorough:
         envf = TlEnv(full=True)
+        check_tl_side(ctx, envf, 'tl-full-table')
         items = [(envf.gen_boxed(rng, rng.randrange(0, 4)), None) for _ in range(300)]
         items += [(mutate_bytes(rng, b), None) for b, _ in items[:100]]
         check_tl(ctx, envf, items, 'tl-full-table', f16_fixed=fixed)
